@@ -5,11 +5,13 @@
    are about.  Compared after every op: events, SendWantlist / QueueOutgoingMessages notifications, the store
    calls started, the client snapshot, the server snapshot and the contents of the store.
 
-   Two inputs of the implementation that Node.v fixes by a choice of its own are taken from the implementation here
+   Inputs of the implementation that Node.v fixes by a choice of its own are taken from the implementation here
    (`gnode_*`); Node.v's functions are the instances with the model's own choice (lemmas at the end):
      * the iteration order of a full wantlist's new want set (`order` of SMsg),
-   and the engine keeps to what Net.v assumes: one connection per peer (ConnectionId 0), so the connection choice of
-   `CPoll []` is forced.  Store calls are not numbered across the two halves by the implementation, so a completion
+     * the connection each wantlist was handed to (`choice` of CPoll), since the engine opens up to three connections per
+       peer — Net.v assumes one per pair, for which `CPoll []` is forced —,
+     * whether a closed connection was the peer's last (`remaining_established == 0` of lib.rs: only then the server half
+       is told).  Store calls are not numbered across the two halves by the implementation, so a completion
    names the CID: `DReleaseCid c` completes every outstanding `get(c)` oldest first (completions of the client's
    and of the server's lookups commute: they touch different halves and only read the store). *)
 From BS Require Export Bytes Varint Cid Prefix Hasher Proto Types Convert Incoming Wantlist Client Server Node.
@@ -17,16 +19,16 @@ From BS Require Corr_client Corr_server Corr_incoming.
 Open Scope N_scope.
 
 Inductive dop :=
-| DConnect (p : peer)
-| DDisconnect (p : peer)
+| DConnect (p : peer) (c : conn)
+| DClose (p : peer) (c : conn) (last : bool)
 | DGet (c : cid)
 | DCancel (q : qid)
 | DPut (c : cid) (d : bytes)
 | DEvict (c : cid)
 | DAdvance (ms : N)
-| DReport (p : peer) (r : sending_report)
+| DReport (p : peer) (c : conn) (r : sending_report)
 | DIncoming (p : peer) (m : message) (order : list cid)
-| DPoll
+| DPoll (choice : list (peer * conn))
 | DReleaseCid (c : cid)
 | DReleasePut.
 
@@ -73,6 +75,21 @@ Definition gnode_incoming (Hh : hash_fn) (n : node) (p : peer) (m : message) (or
   | PmPanic => (n, [LFault], 2)
   end.
 
+(* Behaviour::poll with the connection choice as an input *)
+Definition gnode_poll (n : node) (ch : list (peer * conn)) : node * nouts :=
+  let (c1, o1) := cstep (n_client n) (CPoll ch) in
+  let (c2, o2) := cstep c1 CTakeNewBlocks in
+  let nb := cl_new_blocks o2 in
+  let s1 := match nb with [] => n_server n | _ => fst (srv SZ (n_server n) (SNewBlocks nb)) end in
+  let (s2, o3) := srv SZ s1 SPoll in
+  (MkNode c2 s2 (n_store n) (n_calls n ++ cl_calls o1 ++ sv_calls o3),
+   MkOuts (cl_events o1 ++ (if s_panic s2 then [LFault] else [])) (cl_wants o1) (sv_blocks o3)).
+
+(* FromSwarm::ConnectionClosed: the client half always hears of it, the server half only when it was the last one *)
+Definition gnode_closed (n : node) (p : peer) (c : conn) (last : bool) : node :=
+  MkNode (fst (cstep (n_client n) (CConnClosed p c)))
+         (if last then fst (srv SZ (n_server n) (SDisconnected p)) else n_server n) (n_store n) (n_calls n).
+
 Definition is_get_on (c : cid) (k : scall) : bool :=
   match k with KCGet _ c' => cid_eqb c c' | KSGet _ c' => cid_eqb c c' | KCPut _ _ => false end.
 Definition is_put (k : scall) : bool := match k with KCPut _ _ => true | _ => false end.
@@ -90,16 +107,16 @@ Fixpoint release_cid (fuel : nat) (n : node) (c : cid) : node :=
 
 Definition dstep (Hh : hash_fn) (n : node) (op : dop) : node * nouts * N :=
   match op with
-  | DConnect p => (node_connected SZ n p 0, outs_nil, 3)
-  | DDisconnect p => (node_disconnected SZ n p 0, outs_nil, 3)
+  | DConnect p c => (node_connected SZ n p c, outs_nil, 3)
+  | DClose p c last => (gnode_closed n p c last, outs_nil, 3)
   | DGet c => (node_get SZ n c, outs_nil, 3)
   | DCancel q => (node_cancel n q, outs_nil, 3)
   | DPut c d => (node_put n c d, outs_nil, 3)
   | DEvict c => (node_evict n c, outs_nil, 3)
   | DAdvance ms => (node_advance n ms, outs_nil, 3)
-  | DReport p r => (node_report n p 0 r, outs_nil, 3)
+  | DReport p c r => (node_report n p c r, outs_nil, 3)
   | DIncoming p m order => let '(n', ev, k) := gnode_incoming Hh n p m order in (n', MkOuts ev [] [], k)
-  | DPoll => let (n', o) := node_poll SZ n in (n', o, 3)
+  | DPoll ch => let (n', o) := gnode_poll n ch in (n', o, 3)
   | DReleaseCid c => (release_cid (S (length (n_calls n))) n c, outs_nil, 3)
   | DReleasePut => (match find_call is_put (n_calls n) 0 with Some i => node_store SZ n i | None => n end, outs_nil, 3)
   end.
@@ -132,7 +149,10 @@ Definition dcall_eqb (a b : dcall) : bool :=
   | DPutCall b1, DPutCall b2 => Corr_client.set_eqb Corr_client.blk_eqb b1 b2
   | _, _ => false
   end.
-Definition send_eqb (a b : peer * list (bytes * bytes)) : bool := (fst a =? fst b) && Corr_server.blocks_eqb (snd a) (snd b).
+(* the blocks of one batch: as a multiset — several new blocks handed over by the client half in one poll come out of
+   a hash map (the blocks of one incoming message), so their order in the server's queue is not determined *)
+Definition send_eqb (a b : peer * list (bytes * bytes)) : bool :=
+  (fst a =? fst b) && Corr_client.mset_eqb (fun x y => bytes_eqb (fst x) (fst y) && bytes_eqb (snd x) (snd y)) (snd a) (snd b).
 
 (* events of one op as a multiset (blocks of one message are processed in hash-map order); SendWantlist and
    QueueOutgoingMessages sorted by peer by the harness, compared as multisets of per-peer notifications; store calls
@@ -210,11 +230,40 @@ Definition oracle_C02 (x : case) : bool :=
               (seqN 0 (length qs))
   end.
 
+(* C15 / C13 at node level, on the implementation's snapshots only: after every op the server half holds a want set for
+   exactly the peers that have an open connection (so closing one of several connections discards nothing and the last one
+   discards the peer), and the client half holds state only for peers that have one *)
+Definition open_step (open : list (peer * conn)) (op : dop) : list (peer * conn) :=
+  match op with
+  | DConnect p c => open ++ [(p, c)]
+  | DClose p c _ => filter (fun pc => negb ((fst pc =? p) && (snd pc =? c))) open
+  | _ => open
+  end.
+Definition has_open (open : list (peer * conn)) (p : peer) : bool := existsb (fun pc => fst pc =? p) open.
+Fixpoint c15_run (open : list (peer * conn)) (ops : list dop) (obs : list dobs) : bool :=
+  match ops, obs with
+  | op :: ops', ob :: obs' =>
+      let open' := open_step open op in
+      match ob with
+      | DObs _ _ _ _ _ cs (Corr_server.Snap wants _ _ _) _ =>
+          forallb (fun pw => has_open open' (fst pw)) wants
+          && forallb (fun pc => existsb (fun pw => fst pw =? fst pc) wants) open'
+          && forallb (has_open open') (Corr_client.snap_peers cs)
+      end && c15_run open' ops' obs'
+  | _, _ => true
+  end.
+Definition oracle_C15 (x : case) : bool := c15_run [] (snd (fst x)) (snd x).
+
 (* C08: nothing panicked *)
 Definition oracle_C08 (x : case) : bool :=
   forallb (fun o => match o with DObs k ev _ _ _ _ _ _ => negb (k =? 2) && negb (existsb (lev_eqb LFault) ev) end) (snd x).
 
 (* ---- Node.v's own functions are the instances the engine's generalisation reduces to ---- *)
+Lemma gnode_poll_is_node_poll n : gnode_poll n [] = node_poll SZ n.
+Proof. reflexivity. Qed.
+Lemma gnode_closed_is_node_disconnected n p c : gnode_closed n p c true = node_disconnected SZ n p c.
+Proof. reflexivity. Qed.
+
 Lemma gnode_incoming_is_node_incoming Hh n p m :
   let order := match process_message SZ Hh m with
                | PmOk inc => match in_server inc with
